@@ -292,6 +292,22 @@ def edges_view(g, data=None, src=None, dst=None):
         yield st, Plan("setlike", vars=vars_, mem=g.t[2][u, v], decode=decode, key=key)
 
     d = {"name": "edges", "plan": plan, "graph": g}
+
+    def getitem(engine, st, k):
+        # g.edges[(u, v)] : the attribute dict of an existing edge
+        if k.kind == "tuple" and len(k.t) == 2:
+            st, u = engine.boxed(st, k.t[0])
+            st, v = engine.boxed(st, k.t[1])
+        else:
+            st, p = engine.boxed(st, k)
+            u, v = V.fst(p), V.snd(p)
+        for st1, has in engine.fork(st, g.t[2][u, v]):
+            if has:
+                yield st1, eattr_dict(g, u, v)
+            else:
+                yield st1, Raised("KeyError", where="edges[]: not an edge")
+
+    d["getitem"] = getitem
     if data is None and src is None and dst is None:
         d["call"] = lambda engine, st, args, kwargs: _edges_call(engine, st, g, args, kwargs, None, None)
 
